@@ -137,6 +137,7 @@ type seqHarness struct {
 	srv     *jrpc2.Server
 	pipe    *Pipe
 	peer    *PeerEnd
+	baseCtx bool // the scenario ends the server's base context: requests that had not started need not run
 }
 
 // stdHandler logs h_enter / h_exit around a scheduling point and returns a
